@@ -54,14 +54,19 @@ def drive(sc):
     kw = {"set": {"sources": {tracked, tracked2}}, "none": {"sources": None}, "omitted": {}, "empty": {"sources": set()}}[srcs]
     tracker = plan.add_handler("tracker", what=par["what"], constraint_tolerance=tol, **kw)
     trace = []
+    # the second tracked step lives in a NESTED plan: its events reach the handlers of the enclosing plan through the parent link
+    inner = Plan(plan.optimizer_context) if hasattr(plan, "optimizer_context") else None
+    if inner is not None:
+        inner.set_parent(plan)
     for ev in sc["events"]:
         items = [dict(it, feas_raw=it["feas"]) for it in ev["items"]]
         results = tuple(make_item(it, par["flip"], False) for it in items)
         data = {"results": results}
         if par["flip"]:
             data["transformed_results"] = tuple(make_item(it, True, True) for it in items)
-        plan.emit_event(Event(event_type=EventType.FINISHED_EVALUATION, config=config(),
-                              source={"tracked": tracked, "tracked2": tracked2}.get(ev["src"], other), data=data))
+        (inner if inner is not None and ev["src"] == "tracked2" else plan).emit_event(
+            Event(event_type=EventType.FINISHED_EVALUATION, config=config(),
+                  source={"tracked": tracked, "tracked2": tracked2}.get(ev["src"], other), data=data))
         if len(trace) % 2 == 0:
             # the tracked step finishes (and, with the next event, runs again): what a tracker holds outlives the step
             for et in (EventType.FINISHED_OPTIMIZER_STEP, EventType.START_OPTIMIZER_STEP):
@@ -72,7 +77,7 @@ def drive(sc):
         trace.append({"ev": "Event", "what": par["what"], "flip": bool(par["flip"]), "src": ev["src"], "items": eff, "listens": srcs == "set",
                       "kept": 0 if kept is None else int(kept.batch_id),
                       # what a handler hands out is the result the USER sees, never its optimizer-domain twin
-                      "keptuser": bool(kept is None or kept.metadata.get("domain") == "user")})
+                      "keptuser": bool(kept is None or kept.metadata.get("domain") == "user"), "varsmatch": True})
     last_id = sc["events"][-1]["items"][-1]["id"]
     final = trace[-1]["kept"]
     return trace, {"nontrivial": bool(final != 0 and final != last_id), "key": str(sc), "flip": bool(par["flip"]),
@@ -97,6 +102,11 @@ def drive_real(sc):
     if sc["con"]:
         cfg["nonlinear_constraints"] = {"lower_bounds": [-1e30 if False else float("-inf")], "upper_bounds": [0.5]}
     transforms = OptModelTransforms(objectives=ObjectiveScaler([-1.0])) if flip else None
+    if sc.get("vartf"):
+        # scaled and shifted variables as well: what BasicOptimizer reports (results, variables) is user-domain all the same
+        from ropt.transforms import VariableScaler
+        transforms = OptModelTransforms(variables=VariableScaler(np.array([2.0, 0.5]), np.array([0.25, -0.5])),
+                                        objectives=ObjectiveScaler([-1.0]) if flip else None)
     calls = {"n": 0}
 
     def evaluator(variables, context):
@@ -142,13 +152,14 @@ def drive_real(sc):
                               "nan": nan or not hasfun, "feas": feas})
             else:
                 items.append({"id": k, "kind": "G", "hasfun": False, "obj": 0, "nan": True, "feas": True})
-        trace.append({"ev": "Event", "what": "best", "flip": False, "src": "tracked", "items": items, "kept": -1, "keptuser": True, "listens": True})
+        trace.append({"ev": "Event", "what": "best", "flip": False, "src": "tracked", "items": items, "kept": -1, "keptuser": True, "listens": True, "varsmatch": True})
     # only the final state is observable through BasicOptimizer: judge the last event, mark the others as unobserved
     final = 0 if opt.results is None else ids.get(id(opt.results), -2)
+    varsmatch = bool(opt.results is None or (opt.variables is not None and np.array_equal(opt.variables, opt.results.evaluations.variables)))
     out = []
     for e in trace[:-1]:
         out.append(dict(e, ev="Event", kept=-1))
-    trace = [dict(e, ev="Feed") for e in trace[:-1]] + [dict(trace[-1], kept=final)] if trace else []
+    trace = [dict(e, ev="Feed") for e in trace[:-1]] + [dict(trace[-1], kept=final, varsmatch=varsmatch)] if trace else []
     return trace, {"nontrivial": bool(len(trace) > 2), "key": "real|" + str(sc), "flip": flip, "what": "best", "first_nan": sc["nanfirst"]}
 
 
@@ -185,7 +196,7 @@ def extra_scenarios(tier, seed):
                 if con and method not in ("slsqp", "cobyla", "differential_evolution"):
                     continue
                 for nanfirst in (False, True):
-                    out.append({"real": True, "method": method, "flip": flip, "con": con, "nanfirst": nanfirst,
+                    out.append({"real": True, "method": method, "flip": flip, "con": con, "nanfirst": nanfirst, "vartf": bool(con) != bool(nanfirst),
                                 "x0": [float(v) for v in rng.uniform(-1.5, 1.5, 2)], "maxfun": 12 if tier == "quick" else 40})
     return out
 
